@@ -2,6 +2,7 @@
 from checks import full_step
 from checks import pure_fns
 from checks import extra_audits
+from checks import api_cov
 LEAN_TARGETS = ["drv_step", "QmcProps.C12", "drv_c12"]
 BINS = ["fullstep", "c12"]
 
@@ -75,4 +76,5 @@ def main(ck):
     ck.assumptions.append("the clause 'hence reaches the same averages' is physics (truncation error of the SSE series for cutoff > n with margin); proved is the headroom invariant only")
     ck.assumptions.append("a user who lowers the cutoff by hand with set_cutoff below the container length leaves the domain (Inv) of the run theorems")
     full_step.run(ck)   # whole-timestep exact trajectories, Ising and generic sampler
+    api_cov.run(ck, "c12")   # otherwise unexercised public API, model-free oracles of this property
     return ck.finish(RULE)
